@@ -216,8 +216,17 @@ impl Params {
         let e = |x: quandary::server::RrlParamError| format!("err:{:?}", x);
         let mut p = RrlParams::new(self.ne, self.nx, self.er, self.window).map_err(e)?;
         p.set_slip(self.slip);
-        p.set_ipv4_prefix_len(self.v4len).map_err(e)?;
-        p.set_ipv6_prefix_len(self.v6len).map_err(e)?;
+        // A user who wants the documented defaults (/24 and /56, rrl.rs "Defaults") does not call
+        // the prefix setters at all: for half of such configurations (chosen by the parity of
+        // other parameters, so a replay is exact) rely on what `RrlParams::new` put there.  The
+        // model and the specification always see the explicit lengths 24 / 56.
+        let rely_on_defaults = (self.ne ^ self.window) & 1 == 0;
+        if !(rely_on_defaults && self.v4len == 24) {
+            p.set_ipv4_prefix_len(self.v4len).map_err(e)?;
+        }
+        if !(rely_on_defaults && self.v6len == 56) {
+            p.set_ipv6_prefix_len(self.v6len).map_err(e)?;
+        }
         p.set_size(self.size).map_err(e)?;
         Ok(p)
     }
